@@ -13,6 +13,11 @@ Clauses
                 same FreeSurface / StackingFault object (other shift / shiftindex / vector, sizemults, minwidth, even,
                 vacuumwidth, fault position given or defaulted), with set_shift(), the faultpos_* and a?vect_uvw setters and
                 fault() calls in between; the LAST result is judged by the same oracles as a fresh object's
+  LENGTH UNIT   every clause carries an overall length unit S = 10**lscale, lscale = -12 .. 6 (0 in half of the random cases and
+                three quarters of the enumerated ones, -10 = SI working units favoured among the rest): cell vectors, atom
+                positions, minwidth, vacuumwidth, outofplane, faultshift, minimum_r, Cartesian fault positions and the documented
+                `tol` argument of FreeSurface / StackingFault (a length: default x S) are all multiplied by S; every oracle
+                tolerance is relative to the cell size.  free_surface_basis has no tolerance argument and must be unit-free.
 """
 import functools
 import itertools
@@ -41,12 +46,26 @@ RULE = ("basis: every integer plane (hkl) with max|index| <= 3 (thorough: 4) x t
         "set_shift() / not given, multipliers, minwidth, even, vacuum, fault position given or defaulted) were made on the same "
         "object, with faultpos_rel / faultpos_cart / a1vect_uvw / a2vect_uvw setters and fault() calls between them; the last "
         "surface() result and the fault() / iterfaultmap() outputs after it are judged as for a fresh object.  Non-trivial: "
-        "plane with >= 2 non-zero indices in a non-cubic or centred cell.")
+        "plane with >= 2 non-zero indices in a non-cubic or centred cell.  Length unit: the whole geometric input of a case "
+        "(cell vectors, positions, minwidth, vacuumwidth, outofplane, faultshift, minimum_r, Cartesian fault positions, and the "
+        "`tol` constructor argument, which is a length) is multiplied by S = 10**k, k in -12..6: k = 0 in half of the random "
+        "cases, k = -10 (SI) in a sixth; in the enumerated basis clause one block of planes in four is given in another unit "
+        "(every plane x cut is still visited once per cell).")
 ASSUMPTIONS = [
     "numpy linear algebra is correct",
     "the table of primitive cell vectors per centring (pbt/oracles/surface_ref.PN, the standard choices used by "
     "atomman.tools.miller) defines which conventional cell a primitive box belongs to",
-    "lattice parameters are Angstrom-scale (2-12), as the absolute tolerances inside free_surface_basis presume",
+    "lattice parameters are 2-12 times the length unit S of the case; S ranges over 1e-12 .. 1e6 (the property holds whatever "
+    "the length unit).  free_surface_basis documents no tolerance argument and no unit, so its answer must not depend on S",
+    "the `tol` argument of FreeSurface / StackingFault ('Tolerance parameter used to round off near-zero values') is an absolute "
+    "length in working units (coordinates along the cut are rounded to -log10(tol) decimals, the cell width is compared at "
+    "atol=tol): cases with S = 1 leave it at its default, cases in another unit pass default x S (FreeSurface 1e-7 S, "
+    "StackingFault 1e-8 S); minwidth, vacuumwidth, outofplane ('absolute units'), faultshift, minimum_r, faultpos_cart are "
+    "lengths in working units and are given in the unit of the case",
+    "a failure of a case with S != 1 is attributed to the keyed unit dependence of free_surface_basis only when "
+    "free_surface_basis itself, called directly, refuses or returns invalid rows for the cell in that unit AND returns valid "
+    "rows for the same cell at S = 1; a shift vector leaving the plane that is accepted is attributed to the keyed absolute "
+    "in-plane test only when the same vectors on the same cell at S = 1 are refused",
     "AssertionError('Failed to find ...') from free_surface_basis is the refusal its Raises section documents; it is "
     "accepted only if a larger maxindex (<= 3*default+3) then succeeds, and its share is rate-guarded",
     "ValueError('... cannot have x/y/z component for cutboxvector') is the documented refusal of an orientation whose "
@@ -60,7 +79,7 @@ ASSUMPTIONS = [
     "float (the numbers atomman itself compares); a case with an atom inside that band but not exactly on the plane is outside "
     "the property's domain ('fault positions lying between atomic layers'): labelled atom_on_fault_plane_exempt, no "
     "moved / stayed / restoration assertion, share guarded",
-    "unit cells whose atomic layers along the plane normal are closer than 1e-4 A without coinciding (1e-9) are exempt "
+    "unit cells whose atomic layers along the plane normal are closer than 1e-4 S without coinciding (1e-9 S) are exempt "
     "from the layer-counting assertions",
     "what persists between calls on one object is taken from the docstrings only: surface() without shift / shiftindex uses "
     "'the current value set to the shift attribute' (last of constructor, set_shift(), an earlier surface()); set_shift() "
@@ -74,24 +93,49 @@ ASSUMPTIONS = [
 LEVEL_TEXT = ("All planes up to index 3 (thorough 4) with all three out-of-plane choices in a generic cell of each crystal "
               "family, centred settings and Miller-Bravais indices, plus random cells; surface and stacking-fault systems "
               "built from hand-made unit cells over multipliers, minimum widths, vacuum, every termination, fault "
-              "positions between layers and fractional / full-lattice shifts.")
+              "positions between layers and fractional / full-lattice shifts.  All of it in length units from 1e-12 to 1e6 "
+              "(angstrom-scale numbers in half of the cases, SI metres favoured among the others).")
 TECHNIQUE = ("exact integer zone-law / determinant arithmetic, independent reciprocal vectors, lattice map-back with "
              "multiplicity, independent layer analysis along the plane normal, displacement modulo the in-plane lattice")
 WALL = {'quick': 75, 'thorough': 600}
 
 K_PARALLEL = 'C14:free_surface_basis:parallel-inplane-rows'
+K_SCALE = 'C14:free_surface_basis:absolute-isclose-inplane-test:cell-not-angstrom-scale'
+K_AVECT = 'C14:StackingFault:avect_uvw-inplane-test-absolute:cell-not-angstrom-scale'
 CUTIDX = {'a': 0, 'b': 1, 'c': 2}
 FAMILIES = gens.FAMILIES
 
 
 # ----------------------------------------------------------------------------- cells (case -> numbers)
 
+def cell_S(cell):
+    """the length unit of the case: every length of the case is the angstrom-scale number times S = 10**lscale"""
+    return 10.0 ** int(cell.get('lscale') or 0)
+
+
+def scale_labels(cell):
+    k = int(cell.get('lscale') or 0)
+    if not k:
+        return set()
+    out = {'scaled', 'scale_small' if k < 0 else 'scale_large'}
+    if k == -10:
+        out.add('scale_si')
+    if abs(k) <= 2:
+        out.add('scale_near')
+    return out
+
+
+def cell_txt(cell):
+    k = int(cell.get('lscale') or 0)
+    return '%r%s' % (cell['abc'], ' [lengths x 1e%d]' % k if k else '')
+
+
 def cell_vconv(cell):
     lx, ly, lz, xy, xz, yz = gens.abc_to_lammps(*cell['abc'])
     V = np.array([[lx, 0.0, 0.0], [xy, ly, 0.0], [xz, yz, lz]], dtype=float)
     if cell.get('rot'):
         V = V @ gens.rotation_matrix(*cell['rot']).T
-    return V
+    return V * cell_S(cell)
 
 
 def cell_vprim(cell):
@@ -174,7 +218,56 @@ def judge_basis(out, hkl, Vp, setting, cut, expect4, what):
     return 'ok', rows
 
 
-def basis_one(am, hkl, box, Vp, setting, cut, ret_hex, what):
+def basis_status(am, hkl, cell, cut, ret_hex, maxindex=None):
+    """one free_surface_basis call (default maxindex unless given), judged: ('ok' | 'parallel', rows), ('refused', message) or
+    ('wrong', what is wrong with the rows)"""
+    setting = cell.get('setting', 'p')
+    Vp = cell_vprim(cell)
+    expect4 = (len(hkl) == 4) if ret_hex is None else bool(ret_hex)
+    try:
+        out = call_basis(am, hkl, am.Box(vects=Vp), cut, setting, ret_hex, maxindex=maxindex)
+    except AssertionError as e:
+        if not _is_refusal(e):
+            raise
+        return 'refused', 'raises AssertionError(%s)%s' % (e, '' if maxindex is None else ' also with maxindex=%d' % maxindex)
+    try:
+        return judge_basis(out, hkl, Vp, setting, cut, expect4, 'free_surface_basis')
+    except Violation as v:
+        return 'wrong', 'answers wrongly (%s)' % v.detail[:300]
+
+
+def scale_diagnosis(am, hkl, cell, cut, ret_hex=None, retry=False):
+    """Only for a case in other units than angstrom-scale numbers (lscale != 0), after something went wrong: is it
+    free_surface_basis itself that refuses / answers wrongly for the cell in these units while it answers correctly for the
+    same cell (same shape, same orientation) in angstrom-scale numbers?  Returns the description of the keyed defect or None."""
+    k = int(cell.get('lscale') or 0)
+    if not k:
+        return None
+    s1 = basis_status(am, hkl, cell, cut, ret_hex)
+    if s1[0] not in ('refused', 'wrong'):
+        return None
+    twin = dict(cell, lscale=0)
+    s0 = basis_status(am, hkl, twin, cut, ret_hex)
+    if s0[0] == 'refused' and retry:
+        # the documented refusal at the default search bound in both units: compare at the bound that cures it at angstrom scale
+        d = sr.default_maxindex(plane3(hkl), cell.get('setting', 'p'))
+        for mi in (d + 1, d + 2, 2 * d + 2, 3 * d + 3):
+            s0 = basis_status(am, hkl, twin, cut, ret_hex, maxindex=mi)
+            if s0[0] != 'refused':
+                break
+        if s0[0] != 'ok':
+            return None
+        s1 = basis_status(am, hkl, cell, cut, ret_hex, maxindex=mi)
+        if s1[0] not in ('refused', 'wrong'):
+            return None
+    if s0[0] != 'ok':
+        return None
+    return ('free_surface_basis(%r, %s(%s) cell %s, cutboxvector=%r) %s, while for the same cell in angstrom-scale numbers %r it '
+            'returns the valid rows %r: the result depends on the length unit (absolute tolerance on a length^3 quantity)'
+            % (hkl, cell['family'], cell.get('setting', 'p'), cell_txt(cell), cut, s1[1], cell['abc'], s0[1]))
+
+
+def basis_one(am, hkl, box, Vp, setting, cut, ret_hex, what, cell=None):
     """returns status in {'ok','refusal','parallel'} and rows (or None)"""
     expect4 = (len(hkl) == 4) if ret_hex is None else bool(ret_hex)
     try:
@@ -182,6 +275,11 @@ def basis_one(am, hkl, box, Vp, setting, cut, ret_hex, what):
     except AssertionError as e:
         if not _is_refusal(e):
             raise
+        if cell is not None:
+            # cheap early exit for the keyed unit dependence (before the costly retries with larger search bounds)
+            d = scale_diagnosis(am, hkl, cell, cut, ret_hex, retry=True)
+            if d:
+                raise Violation(d, key=K_SCALE)
         # documented refusal: must be curable by a larger search bound
         h3 = plane3(hkl)
         d = sr.default_maxindex(h3, setting)
@@ -198,9 +296,20 @@ def basis_one(am, hkl, box, Vp, setting, cut, ret_hex, what):
                 continue
             st_, rows = judge_basis(out, hkl, Vp, setting, cut, expect4, what + ' [maxindex=%d after refusal]' % mi)
             return ('refusal' if st_ == 'ok' else st_), rows
+        if cell is not None:
+            dg = scale_diagnosis(am, hkl, cell, cut, ret_hex, retry=True)
+            if dg:
+                raise Violation(dg, key=K_SCALE)
         raise Violation("%s: refused with %r and no maxindex up to 3*default+3 = %d cures it (tried %r)"
                         % (what, str(e), 3 * d + 3, tried))
-    return judge_basis(out, hkl, Vp, setting, cut, expect4, what)
+    try:
+        return judge_basis(out, hkl, Vp, setting, cut, expect4, what)
+    except Violation as v:
+        if cell is not None and v.key is None:
+            d = scale_diagnosis(am, hkl, cell, cut, ret_hex)
+            if d:
+                raise Violation(d, key=K_SCALE) from None
+        raise
 
 
 def oracle_basis(case):
@@ -209,7 +318,7 @@ def oracle_basis(case):
     setting = cell.get('setting', 'p')
     Vp = cell_vprim(cell)
     box = am.Box(vects=Vp)
-    labels = {cell['family'], 'setting_' + setting}
+    labels = {cell['family'], 'setting_' + setting} | scale_labels(cell)
     if setting != 'p':
         labels.add('centred')
     if cell.get('rot'):
@@ -227,10 +336,10 @@ def oracle_basis(case):
             labels.add('nt')
         for cut in case['cuts']:
             ncall += 1
-            what = 'free_surface_basis(%r, %s(%s) cell %r%s, cutboxvector=%r%s)' % (
-                hkl, cell['family'], setting, cell['abc'], ' rotated' if cell.get('rot') else '', cut,
+            what = 'free_surface_basis(%r, %s(%s) cell %s%s, cutboxvector=%r%s)' % (
+                hkl, cell['family'], setting, cell_txt(cell), ' rotated' if cell.get('rot') else '', cut,
                 '' if ret_hex is None else ', return_hexagonal=%r' % ret_hex)
-            status, rows = basis_one(am, hkl, box, Vp, setting, cut, ret_hex, what)
+            status, rows = basis_one(am, hkl, box, Vp, setting, cut, ret_hex, what, cell=cell)
             labels.add(status)
             labels.add('cut_' + cut)
             if status == 'parallel':
@@ -275,6 +384,16 @@ def _blocks(planes, size):
     return [planes[i:i + size] for i in range(0, len(planes), size)]
 
 
+ENUM_SCALES = (-10, 1, -10, -8, -2, -10, 3, -12, -5, -1, -10, 6, -3, 2, -6, -10, -9, -4)
+
+
+def _unit(cell, bi, every, j=0):
+    """the cell of block #bi: one block in `every` is given in another length unit (cycling through ENUM_SCALES)"""
+    if bi % every != every - 1:
+        return cell
+    return dict(cell, lscale=ENUM_SCALES[(bi // every + 5 * j) % len(ENUM_SCALES)])
+
+
 def enum_basis(tier):
     cases = []
     rot = [[1, 2, 3], 37.5]
@@ -286,36 +405,36 @@ def enum_basis(tier):
             mode = '4' if fam == 'hexagonal' else '3'
             for bi, blk in enumerate(_blocks(P, 3)):
                 cuts = 'abc' if full else 'cab'[bi % 3]
-                cases.append({'cell': cell, 'planes': blk, 'cuts': cuts, 'hex': mode})
+                cases.append({'cell': _unit(cell, bi, 4, FAMILIES.index(fam)), 'planes': blk, 'cuts': cuts, 'hex': mode})
         # sampled: centred settings, the other Miller-Bravais modes, a rigidly rotated cell
         for j, (fam, s) in enumerate(CENTRED[:5]):
             cell = {'family': fam, 'abc': GENERIC[fam], 'setting': s, 'rot': None}
             for bi, blk in enumerate(_blocks(P[j % 3::3], 3)):
-                cases.append({'cell': cell, 'planes': blk, 'cuts': 'cab'[bi % 3], 'hex': '3'})
+                cases.append({'cell': _unit(cell, bi, 4, j), 'planes': blk, 'cuts': 'cab'[bi % 3], 'hex': '3'})
         hexc = {'family': 'hexagonal', 'abc': GENERIC['hexagonal'], 'setting': 'p', 'rot': None}
         for k, mode in enumerate(('3', '3to4', '4to3')):
             for bi, blk in enumerate(_blocks(P[k::6], 3)):
-                cases.append({'cell': hexc, 'planes': blk, 'cuts': 'cab'[bi % 3], 'hex': mode})
+                cases.append({'cell': _unit(hexc, bi, 4, k), 'planes': blk, 'cuts': 'cab'[bi % 3], 'hex': mode})
         tric = {'family': 'triclinic', 'abc': GENERIC2['triclinic'], 'setting': 'p', 'rot': rot}
         for bi, blk in enumerate(_blocks(P[1::4], 3)):
-            cases.append({'cell': tric, 'planes': blk, 'cuts': 'cab'[bi % 3], 'hex': '3'})
+            cases.append({'cell': _unit(tric, bi, 4, 3), 'planes': blk, 'cuts': 'cab'[bi % 3], 'hex': '3'})
     else:
         P = all_planes(4)
         for table in (GENERIC, GENERIC2):
             for fam in FAMILIES:
                 cell = {'family': fam, 'abc': table[fam], 'setting': 'p', 'rot': rot if table is GENERIC2 and fam == 'triclinic' else None}
                 mode = '4' if fam == 'hexagonal' and table is GENERIC else '3'
-                for blk in _blocks(P if table is GENERIC else all_planes(3), 2):
-                    cases.append({'cell': cell, 'planes': blk, 'cuts': 'abc', 'hex': mode})
+                for bi, blk in enumerate(_blocks(P if table is GENERIC else all_planes(3), 2)):
+                    cases.append({'cell': _unit(cell, bi, 4, FAMILIES.index(fam)), 'planes': blk, 'cuts': 'abc', 'hex': mode})
         P3 = all_planes(3)
         for j, (fam, s) in enumerate(CENTRED):
             cell = {'family': fam, 'abc': GENERIC[fam], 'setting': s, 'rot': None}
             for bi, blk in enumerate(_blocks(P3, 3)):
-                cases.append({'cell': cell, 'planes': blk, 'cuts': 'cab'[bi % 3], 'hex': '3'})
+                cases.append({'cell': _unit(cell, bi, 4, j), 'planes': blk, 'cuts': 'cab'[bi % 3], 'hex': '3'})
         hexc = {'family': 'hexagonal', 'abc': GENERIC2['hexagonal'], 'setting': 'p', 'rot': None}
         for mode in ('3to4', '4to3'):
             for bi, blk in enumerate(_blocks(P3, 3)):
-                cases.append({'cell': hexc, 'planes': blk, 'cuts': 'cab'[bi % 3], 'hex': mode})
+                cases.append({'cell': _unit(hexc, bi, 4, 2), 'planes': blk, 'cuts': 'cab'[bi % 3], 'hex': mode})
     # fixed permutation of the list: every shard (cases[shard::n]) and every prefix of a shard then holds all cells and
     # settings in proportion, so a run cut short by the soft wall budget is still representative and shards cost the same
     N = len(cases)
@@ -338,6 +457,8 @@ _idx4 = st.integers(-4, 4)
 _idx2 = st.integers(-2, 2)
 _cut = st.sampled_from(['a', 'b', 'c'])
 _int10 = st.integers(0, 9)
+# length unit of a case: 10**lscale; angstrom-scale numbers (0) in half of the cases, SI (1e-10) favoured among the others
+_lscale = st.sampled_from([0] * 18 + [-10] * 6 + [-12, -9, -8, -6, -4, -3, -2, -1, 1, 2, 3, 6])
 SETTING_FAMILIES = {
     'i': ('orthorhombic', 'tetragonal', 'cubic'),
     'f': ('orthorhombic', 'cubic'),
@@ -359,7 +480,7 @@ def cells(draw, centred_share=4):
     if len(opts) > 1 and draw(_int10) < centred_share:
         setting = draw(st.sampled_from(opts[1:]))
     rot = draw(_rot) if draw(_int10) < 3 else None
-    return {'family': fam, 'abc': fp['abc'], 'setting': setting, 'rot': rot}
+    return {'family': fam, 'abc': fp['abc'], 'setting': setting, 'rot': rot, 'lscale': draw(_lscale)}
 
 
 def _plane(draw, src):
@@ -514,25 +635,26 @@ def shift_arg(obj, mode, idx, cur):
     return {}, cur
 
 
-def size_args(step):
+def size_args(step, S=1.0):
+    """minwidth / vacuumwidth are lengths in working units: given in the unit S of the case"""
     kw = {}
     if step['sizemults'] is not None:
         kw['sizemults'] = [mult_arg(m) for m in step['sizemults']]
     if step['minwidth'] is not None:
-        kw['minwidth'] = step['minwidth']
+        kw['minwidth'] = step['minwidth'] * S
     if step['even']:
         kw['even'] = True
     if step['vacuum'] is not None:
-        kw['vacuumwidth'] = float(step['vacuum'])
+        kw['vacuumwidth'] = float(step['vacuum']) * S
     return kw
 
 
-def run_step(obj, step, cur, force_mode=None, force_idx=None, **extra):
+def run_step(obj, step, cur, force_mode=None, force_idx=None, S=1.0, **extra):
     """one earlier surface() call of a history (its result is not judged); returns (system, termination index in force)"""
     nsh = len(obj.shifts)
     idx = step['shiftsel'] % nsh if force_idx is None else force_idx
     kw, cur = shift_arg(obj, force_mode or step['shiftmode'], idx, cur)
-    kw.update(size_args(step))
+    kw.update(size_args(step, S))
     kw.update(extra)
     return obj.surface(**kw), cur
 
@@ -613,6 +735,7 @@ class Geometry:
 
     def __init__(self, u, hkl, cut, rows):
         cell = u['cell']
+        self.S = cell_S(cell)                       # the length unit of the case (1 = angstrom-scale numbers)
         self.setting = cell['setting']
         self.h3 = plane3(hkl)
         self.ci = CUTIDX[cut]
@@ -634,7 +757,7 @@ class Geometry:
         pos = np.array(u['atoms'], dtype=float).reshape(-1, 3) @ self.Vp
         self.upos = pos
         self.heights = pos @ (self.g / self.gn)
-        self.layers, self.ambiguous = sr.distinct_layers(self.heights, self.period, 1e-9, 1e-4)
+        self.layers, self.ambiguous = sr.distinct_layers(self.heights, self.period, 1e-9 * self.S, 1e-4 * self.S)
 
     def perp_cos(self):
         c = self.W[self.ci]
@@ -650,18 +773,35 @@ def judge_rows(geo, what):
     require(geo.det > 0, lambda: '%s: rows %r are not right-handed / independent (det %d)' % (what, geo.rows, geo.det))
 
 
+DEFAULT_TOL = {'FreeSurface': 1e-7, 'StackingFault': 1e-8}
+
+
+def tol_arg(cls, cell):
+    """`tol` ('Tolerance parameter used to round off near-zero values') rounds Cartesian coordinates along the cut to
+    -log10(tol) decimals and compares lengths at atol=tol: a length in working units.  Angstrom-scale cases leave it at the
+    default; a case in the unit S passes default x S"""
+    k = int(cell.get('lscale') or 0)
+    return {'tol': DEFAULT_TOL[cls.__name__] * 10.0 ** k} if k else {}
+
+
 def construct(am, cls, case, u, ucell, labels, **extra):
     """FreeSurface / StackingFault constructor with the documented refusals sorted out.
     returns the object, or None after adding a refusal label"""
     hkl, cut = case['hkl'], case['cut']
     setting = u['cell']['setting']
-    what = '%s(%r, %s(%s) cell %r, cutboxvector=%r)' % (cls.__name__, hkl, u['cell']['family'], setting, u['cell']['abc'], cut)
+    what = '%s(%r, %s(%s) cell %s, cutboxvector=%r)' % (cls.__name__, hkl, u['cell']['family'], setting, cell_txt(u['cell']), cut)
     kw = dict(cutboxvector=cut, conventional_setting=setting)
+    kw.update(tol_arg(cls, u['cell']))
     kw.update(extra)
+    if kw.get('tol') is not None:
+        what = what[:-1] + ', tol=%r)' % kw['tol']
     try:
         return cls(hkl, ucell, **kw), what
     except AssertionError as e:
         if _is_refusal(e):
+            d = scale_diagnosis(am, hkl, u['cell'], cut)
+            if d:
+                raise Violation('%s: %s' % (what, d), key=K_SCALE) from None
             labels.add('refusal_search')
             return None, what
         raise
@@ -751,6 +891,26 @@ def check_system(geo, system, shift, mults_lo_cnt, vac, what, motif, mult_each):
     return B, o, pos, n, d, w
 
 
+def with_scale_diagnosis(oracle):
+    """A case in other units than angstrom-scale numbers that fails (Violation without key, or an exception from atomman) is
+    first examined for the keyed unit dependence of free_surface_basis (which FreeSurface / StackingFault call first): wrong
+    rows make everything behind them fail in arbitrary ways.  Anything else propagates unchanged."""
+    @functools.wraps(oracle)
+    def wrapped(case):
+        try:
+            return oracle(case)
+        except Exception as e:
+            cell = case['ucell']['cell']
+            if cell.get('lscale') and not (isinstance(e, Violation) and e.key is not None):
+                import atomman as am
+                d = scale_diagnosis(am, case['hkl'], cell, case['cut'])
+                if d:
+                    raise Violation('%s [met as: %s: %s]' % (d, type(e).__name__, str(e)[:300]), key=K_SCALE) from None
+            raise
+    return wrapped
+
+
+@with_scale_diagnosis
 def oracle_surface(case):
     import atomman as am
     from atomman.defect import FreeSurface
@@ -759,7 +919,9 @@ def oracle_surface(case):
     hkl, cut = case['hkl'], case['cut']
     setting = cell['setting']
     h3 = plane3(hkl)
-    labels = {cell['family'], 'setting_' + setting, 'cut_' + cut, 'natoms%d' % len(u['atoms'])}
+    S = cell_S(cell)
+    mw = None if case['minwidth'] is None else case['minwidth'] * S          # minwidth / vacuumwidth: lengths in working units
+    labels = {cell['family'], 'setting_' + setting, 'cut_' + cut, 'natoms%d' % len(u['atoms'])} | scale_labels(cell)
     if setting != 'p':
         labels.add('centred')
     if len(hkl) == 4:
@@ -784,7 +946,7 @@ def oracle_surface(case):
             lambda: '%s: transform\n%r\nis not the rotation taking the chosen vectors into the box orientation\n%r' % (what, Tf, geo.T))
     rw = float(fs.rcellwidth)
     require(abs(rw - geo.rw) <= 1e-9 * geo.L, lambda: '%s: rcellwidth %.12g, expected (h u + k v + l w)/|g| = %.12g' % (what, rw, geo.rw))
-    motif = cm.Motif(Vp, np.zeros(3), upos, 1e-6 * max(1.0, geo.L))
+    motif = cm.Motif(Vp, np.zeros(3), upos, 1e-6 * max(S, geo.L))
     motif.types = [int(t) for t in u['types']]
     # rcell itself
     check_system_rcell = fs.rcell
@@ -798,7 +960,7 @@ def oracle_surface(case):
     sv = shifts[:, ci]
     require(np.all(sv >= -1e-9 * geo.L) and np.all(sv <= rw + 1e-9 * geo.L),
             lambda: '%s: shifts outside [0, rcellwidth = %.9g]: %r' % (what, rw, sv.tolist()))
-    tol_l = 1e-6 * max(1.0, geo.L)
+    tol_l = 1e-6 * max(S, geo.L)
     if not geo.ambiguous:
         k = geo.z[ci] // geo.gq
         nexp = k * len(geo.layers)
@@ -828,7 +990,7 @@ def oracle_surface(case):
     sm = case['sizemults']
     spans = [mult_span(m) for m in sm] if sm is not None else [(0, 1)] * 3
     mcut = sm[ci] if sm is not None else 1
-    allowed = expected_cut_mult(mcut, case['minwidth'], case['even'], geo.rw)
+    allowed = expected_cut_mult(mcut, mw, case['even'], geo.rw)
     nsh = len(sv)
     if nsh <= 4:
         which = list(range(nsh))
@@ -849,12 +1011,12 @@ def oracle_surface(case):
     cur = 0                                   # constructor: shiftindex 0 (passed, or the documented default)
     for j, step in enumerate(prior):
         if smode == 'init':
-            _, cur = run_step(fs, step, cur, force_mode='none')          # the constructor's choice must survive
+            _, cur = run_step(fs, step, cur, force_mode='none', S=S)          # the constructor's choice must survive
         elif smode == 'prev' and j == len(prior) - 1:
             pm = step['shiftmode'] if step['shiftmode'] in ('index', 'vector', 'scaled', 'set_shift') else 'index'
-            _, cur = run_step(fs, step, cur, force_mode=pm, force_idx=which[0])
+            _, cur = run_step(fs, step, cur, force_mode=pm, force_idx=which[0], S=S)
         else:
-            _, cur = run_step(fs, step, cur)
+            _, cur = run_step(fs, step, cur, S=S)
         if step['shiftmode'].startswith('set_shift') and smode != 'init':
             labels.add('history_set_shift')
     if prior:
@@ -877,8 +1039,8 @@ def oracle_surface(case):
         kw = {}
         if sm is not None:
             kw['sizemults'] = [mult_arg(m) for m in sm]
-        if case['minwidth'] is not None:
-            kw['minwidth'] = case['minwidth']
+        if mw is not None:
+            kw['minwidth'] = mw
         if case['even']:
             kw['even'] = True
         ii = 0 if si is None else si
@@ -898,7 +1060,7 @@ def oracle_surface(case):
         mfinal = int(round(got))
         require(abs(got - mfinal) <= 1e-8 and mfinal in allowed,
                 lambda: '%s: %.9g oriented cells along the cut vector, expected %r (sizemult %r, minwidth %r, even %r, cell width %.9g)'
-                % (w2, got, sorted(allowed), mcut, case['minwidth'], case['even'], geo.rw))
+                % (w2, got, sorted(allowed), mcut, mw, case['even'], geo.rw))
         sp2 = list(spans)
         sp2[ci] = (-mfinal, mfinal) if int(mcut) < 0 else (0, mfinal)
         nrep = geo.det * sp2[0][1] * sp2[1][1] * sp2[2][1]
@@ -907,8 +1069,8 @@ def oracle_surface(case):
         require(np.abs(sh_used - shifts[ii]).max() <= 1e-9 * geo.L, lambda: '%s: shift attribute %r is not shifts[%d] = %r'
                 % (w2, sh_used.tolist(), ii, shifts[ii].tolist()))
         B, o, pos, n, d, w = check_system(geo, system, sh_used, sp2, None, w2, motif, nrep)
-        if case['minwidth'] is not None:
-            require(w >= case['minwidth'] - 1e-9 * geo.L, lambda: '%s: slab width %.9g < minwidth %r' % (w2, w, case['minwidth']))
+        if mw is not None:
+            require(w >= mw - 1e-9 * geo.L, lambda: '%s: slab width %.9g < minwidth %r' % (w2, w, mw))
         # termination: the cut (both faces) strictly between atomic planes, halfway
         dmin, dmax = float(d.min()), float(w - d.max())
         require(dmin > tol_l and dmax > tol_l, lambda: '%s: an atomic plane lies on the cut (nearest atoms %.3g above the bottom face, %.3g below the top face)'
@@ -920,7 +1082,7 @@ def oracle_surface(case):
         sa = float(fs.surfacearea)
         require(abs(sa - area) <= 1e-9 * area, lambda: '%s: surfacearea %.12g, in-plane cell area %.12g' % (w2, sa, area))
         if case['vacuum'] is not None and first:
-            vac = float(case['vacuum'])
+            vac = float(case['vacuum']) * S
             kwv = dict(kw, vacuumwidth=vac)
             if 'sizemults' in kwv:
                 kwv['sizemults'] = list(kw['sizemults'])
@@ -1088,6 +1250,32 @@ def displacement_check(base, new, side, expected, B, ci, tol, what, common_delta
     return delta
 
 
+def avect_twin(am, StackingFault, case, u, cust_kw):
+    """the same StackingFault(..., a1vect_uvw=, a2vect_uvw=) on the same unit cell in angstrom-scale numbers:
+    'refuses' (ValueError not in fault plane) or 'accepts'"""
+    u1 = dict(u, cell=dict(u['cell'], lscale=0))
+    ucell1 = build_ucell(am, u1)[0]
+    try:
+        StackingFault(case['hkl'], ucell1, cutboxvector=case['cut'], conventional_setting=u['cell']['setting'], **cust_kw)
+    except ValueError as e:
+        if 'not in fault plane' in str(e):
+            return 'refuses'
+        raise
+    return 'accepts'
+
+
+def bad_avect_accepted(am, StackingFault, case, u, cust_kw, msg):
+    """a shift vector that leaves the plane was accepted: keyed when the case is in other units than angstrom-scale numbers
+    and the same call on the same cell in angstrom-scale numbers refuses it"""
+    key = None
+    if u['cell'].get('lscale') and avect_twin(am, StackingFault, case, u, cust_kw) == 'refuses':
+        key = K_AVECT
+        msg += (' [the same vectors on the same cell in angstrom-scale numbers are refused: the in-plane test compares a length '
+                'with an absolute tolerance]')
+    raise Violation(msg, key=key)
+
+
+@with_scale_diagnosis
 def oracle_fault(case):
     import atomman as am
     from atomman.defect import StackingFault
@@ -1096,7 +1284,8 @@ def oracle_fault(case):
     hkl, cut = case['hkl'], case['cut']
     setting = cell['setting']
     h3 = plane3(hkl)
-    labels = {cell['family'], 'setting_' + setting, 'cut_' + cut}
+    S = cell_S(cell)
+    labels = {cell['family'], 'setting_' + setting, 'cut_' + cut} | scale_labels(cell)
     if setting != 'p':
         labels.add('centred')
     if len(hkl) == 4:
@@ -1124,12 +1313,18 @@ def oracle_fault(case):
         labels.add('custom_avect')
         if custom['where'] == 'init':
             try:
-                sf = StackingFault(hkl, ucell, cutboxvector=cut, conventional_setting=setting, **cust_kw)
+                sf = StackingFault(hkl, ucell, cutboxvector=cut, conventional_setting=setting, **tol_arg(StackingFault, cell), **cust_kw)
             except ValueError as e:
+                if not custom['bad'] and 'not in fault plane' in str(e) and cell.get('lscale') \
+                        and avect_twin(am, StackingFault, case, u, cust_kw) == 'accepts':
+                    raise Violation('%s with %r raised ValueError(%s); the same vectors on the same cell in angstrom-scale numbers are '
+                                    'accepted' % (what, cust_kw, e), key=K_AVECT) from None
                 require(custom['bad'] and 'not in fault plane' in str(e), lambda: '%s with %r raised ValueError(%s)' % (what, cust_kw, e))
                 labels.update({'refusal_avect', 'nt'} if is_nt_plane(cell, h3) else {'refusal_avect'})
                 return labels
-            require(not custom['bad'], lambda: '%s accepted a shift vector %r that leaves the plane' % (what, cust_kw['a1vect_uvw']))
+            if custom['bad']:
+                bad_avect_accepted(am, StackingFault, case, u, cust_kw,
+                                   '%s accepted a shift vector %r that leaves the plane' % (what, cust_kw['a1vect_uvw']))
             cust_kw = {}
     # ---- object history: earlier surface() calls on the same object, setters and fault() calls in between (not judged)
     hist = case.get('history') or {}
@@ -1144,7 +1339,9 @@ def oracle_fault(case):
             require(custom['bad'] and 'not in fault plane' in str(e), lambda: '%s: assigning %r raised ValueError(%s)' % (what, cust_kw, e))
             labels.update({'refusal_avect', 'nt'} if is_nt_plane(cell, h3) else {'refusal_avect'})
             return False
-        require(not custom['bad'], lambda: '%s: a1vect_uvw = %r, a shift vector that leaves the plane, was accepted' % (what, cust_kw['a1vect_uvw']))
+        if custom['bad']:
+            bad_avect_accepted(am, StackingFault, case, u, cust_kw,
+                               '%s: a1vect_uvw = %r, a shift vector that leaves the plane, was accepted' % (what, cust_kw['a1vect_uvw']))
         labels.add('history_setter_avect')
         return True
 
@@ -1160,7 +1357,7 @@ def oracle_fault(case):
         if step.get('fpos') is not None:
             extra['faultpos_rel'] = step['fpos']
             explicit_pos = True
-        psys, cur = run_step(sf, step, cur, **extra)
+        psys, cur = run_step(sf, step, cur, S=S, **extra)
         prev_natoms = psys.natoms
         if step['shiftmode'].startswith('set_shift'):
             labels.add('history_set_shift')
@@ -1206,11 +1403,11 @@ def oracle_fault(case):
     if sm is not None:
         kw['sizemults'] = [mult_arg(m) for m in sm]
     if case['minwidth'] is not None:
-        kw['minwidth'] = case['minwidth']
+        kw['minwidth'] = case['minwidth'] * S
     if case['even']:
         kw['even'] = True
     if case['vacuum'] is not None:
-        kw['vacuumwidth'] = float(case['vacuum'])
+        kw['vacuumwidth'] = float(case['vacuum']) * S
     w0 = '%s.surface(%s)' % (what, ', '.join('%s=%r' % kv for kv in sorted(kw.items())))
     base_sys = sf.surface(**dict(kw, sizemults=list(kw['sizemults'])) if 'sizemults' in kw else kw)
     sh_now = np.asarray(sf.shift, dtype=float)
@@ -1232,13 +1429,13 @@ def oracle_fault(case):
                 % (w0, i, B[i].tolist(), cnt, geo.B0[i].tolist()))
     width = float(B[ci, ci])
     x = base[:, ci]
-    Lx = cluster_layers(x, 1e-6 * max(1.0, geo.L))
+    Lx = cluster_layers(x, 1e-6 * max(S, geo.L))
     fp = case['fpos']
     mode = fp['mode']
     fkw = {}
-    tol = 1e-8 * max(1.0, geo.L, width)
+    tol = 1e-8 * max(S, geo.L, width)
     if case['outside']:
-        bad = {'faultpos_rel': 1.0 + fp['frac']} if fp['gapsel'] % 2 else {'faultpos_cart': float(o[ci] - fp['frac'] - 0.01)}
+        bad = {'faultpos_rel': 1.0 + fp['frac']} if fp['gapsel'] % 2 else {'faultpos_cart': float(o[ci] - (fp['frac'] + 0.01) * S)}
         try:
             sf.fault(a1=0.5, **bad)
         except ValueError as e:
@@ -1276,15 +1473,15 @@ def oracle_fault(case):
         if sh.get('a2') is not None:
             skw['a2'] = sh['a2']
         if 'out' in sh:
-            skw['outofplane'] = sh['out']
-        expected = (sh.get('a1') or 0.0) * A1 + (sh.get('a2') or 0.0) * A2 + sh.get('out', 0.0) * e
+            skw['outofplane'] = sh['out'] * S                    # 'given in absolute units'
+        expected = (sh.get('a1') or 0.0) * A1 + (sh.get('a2') or 0.0) * A2 + sh.get('out', 0.0) * S * e
     elif sh['kind'] == 'faultshift':
-        skw['faultshift'] = np.array(sh['vec'], dtype=float)
-        expected = np.array(sh['vec'], dtype=float)
+        skw['faultshift'] = np.array(sh['vec'], dtype=float) * S
+        expected = np.array(sh['vec'], dtype=float) * S
     else:
         expected = np.zeros(3)
     if case['minimum_r'] is not None:
-        skw['minimum_r'] = case['minimum_r']
+        skw['minimum_r'] = case['minimum_r'] * S
     pf = hist.get('pre_fault')
     if pf is not None:
         # an earlier fault() on the final surface; it may move the fault plane only when the judged call places its own
@@ -1302,16 +1499,17 @@ def oracle_fault(case):
             labels.add('refusal_avect')
             return labels
         raise
-    require(not (custom is not None and custom['bad'] and cust_kw), lambda: '%s accepted a shift vector that leaves the plane' % w1)
+    if custom is not None and custom['bad'] and cust_kw:
+        bad_avect_accepted(am, StackingFault, case, u, cust_kw, '%s accepted a shift vector that leaves the plane' % w1)
     fpc = float(sf.faultpos_cart)
-    require(abs(fpc - fpv) <= 1e-9 * max(1.0, abs(fpv), width), lambda: '%s: faultpos_cart %.12g, requested position %.12g' % (w1, fpc, fpv))
+    require(abs(fpc - fpv) <= 1e-9 * max(S, abs(fpv), width), lambda: '%s: faultpos_cart %.12g, requested position %.12g' % (w1, fpc, fpv))
     fpr = float(sf.faultpos_rel)
     require(abs(fpr - (fpv - o[ci]) / width) <= 1e-9, lambda: '%s: faultpos_rel %.12g for position %.12g in [%.12g, %.12g]' % (w1, fpr, fpv, o[ci], o[ci] + width))
     # domain: 'fault-plane positions lying between atomic layers'.  An atom within BAND of the plane in force (given, defaulted
     # or reached through the object's history) without being on it EXACTLY (float equality of the very numbers atomman compares)
     # puts the case out of domain: rounding decides atom by atom which side it is on.  Only the shift-independent assertions
     # are then made.  An atomic plane exactly on the fault plane (all of its atoms equal to faultpos_cart) stays: 'above' is strict
-    band = FAULT_BAND * max(1.0, width)
+    band = FAULT_BAND * max(S, width)
     near = np.abs(x - fpc) <= band
     exact = near & (x == fpc)
     out_of_domain = bool((near & ~exact).any())
@@ -1344,7 +1542,7 @@ def oracle_fault(case):
         labels.add('both_sides')
     if sh['kind'] == 'lattice' and case['minimum_r'] is None:
         # full in-plane lattice vector: the perfect (unfaulted) slab is restored as a set of atoms
-        mt = cm.Motif(B, o, base, 1e-6 * max(1.0, geo.L))
+        mt = cm.Motif(B, o, base, 1e-6 * max(S, geo.L))
         m = mt.match(new)
         cntm = mt.multiplicity(m.index)
         okm = (len(m.unmatched) == 0 and np.all(cntm == 1) and np.all(m.shift[:, ci] == 0)
@@ -1354,7 +1552,7 @@ def oracle_fault(case):
         labels.add('lattice_restored')
         if (sh['a1'] or sh['a2']) and nab and nbe:
             labels.add('lattice_nonzero')
-    if np.linalg.norm(expected) > 1e-6 and nab and nbe and np.abs(np.cross(A1, A2)).max() > 0:
+    if np.linalg.norm(expected) > 1e-6 * S and nab and nbe and np.abs(np.cross(A1, A2)).max() > 0:
         labels.add('shifted')
         if sh.get('a1') and not sh.get('a2'):
             labels.add('a1_only')
@@ -1381,19 +1579,32 @@ def oracle_fault(case):
     return labels
 
 
+def _unit_guards(scaled_blocked, near, scaled, si):
+    """min_share guards of the length-unit classes (half of the observed shares).  While the unit dependence of free_surface_basis
+    (K_SCALE) is an open finding, every case outside about 1e-3 .. 1e2 is excluded-and-counted and carries no labels, so only the
+    classes that survive it can be guarded; once the finding is no longer listed open the full guards (SI share) apply."""
+    from ..core import load_known
+    blocked = K_SCALE in load_known('C14')[0]
+    if blocked:
+        return {'scaled': scaled_blocked, 'scale_near': near}
+    return {'scaled': scaled, 'scale_near': near, 'scale_si': si}
+
+
 CLAUSES = [
     Clause('basis', oracle_basis, enumerate=enum_basis, max_share={'refusal': 0.08},
-           min_share={'nt': 0.4, 'centred': 0.06, 'hex_4': 0.04},
+           min_share=dict({'nt': 0.4, 'centred': 0.06, 'hex_4': 0.04}, **_unit_guards(0.04, 0.025, 0.12, 0.035)),
            desc='free_surface_basis on every plane up to the index bound x cutboxvector in a generic cell per family, centred '
                 'settings, Miller-Bravais: integer, right-handed, zone law exact, out-of-plane row on the normal side, normal = +g'),
     Clause('basis_random', oracle_basis_random, basis_random_cases, quick=640, thorough=12000,
-           min_share={'nt': 0.35, 'centred': 0.1, 'rigid_rot': 0.15}, max_share={'refusal': 0.15},
+           min_share=dict({'nt': 0.35, 'centred': 0.1, 'rigid_rot': 0.15}, **_unit_guards(0.1, 0.03, 0.23, 0.11)),
+           max_share={'refusal': 0.15},
            desc='the same oracle on random cells of every family / centred setting (30 % rigidly rotated), planes up to index 4'),
     Clause('surface', oracle_surface, surface_cases, quick=570, thorough=10000,
-           min_share={'nt': 0.2, 'built': 0.4, 'multilayer': 0.2, 'multishift': 0.3, 'vacuum': 0.12, 'minwidth_decides': 0.06,
-                      'negmult': 0.12, 'tuplemult': 0.12, 'centred': 0.12, 'hex4': 0.02, 'cut_a': 0.07, 'cut_b': 0.07,
-                      'history_second_surface': 0.26, 'history_third_surface': 0.1, 'history_shift_persisted': 0.07,
-                      'history_set_shift': 0.16, 'history_defaults_after_given': 0.14},
+           min_share=dict({'nt': 0.2, 'built': 0.4, 'multilayer': 0.2, 'multishift': 0.3, 'vacuum': 0.12, 'minwidth_decides': 0.06,
+                           'negmult': 0.12, 'tuplemult': 0.12, 'centred': 0.12, 'hex4': 0.02, 'cut_a': 0.07, 'cut_b': 0.07,
+                           'history_second_surface': 0.26, 'history_third_surface': 0.1, 'history_shift_persisted': 0.07,
+                           'history_set_shift': 0.16, 'history_defaults_after_given': 0.14},
+                          **_unit_guards(0.09, 0.04, 0.23, 0.08)),
            max_share={'refusal_search': 0.25, 'refusal_cut': 0.4, 'layer_ambiguous': 0.05, 'c04_filtering_skip': 0.02},
            desc='FreeSurface: chosen vectors, transform, rcellwidth; all offered shifts halfway between atomic planes, one per gap; built '
                 'systems: pbc, box = multipliers x oriented cell, same crystal by map-back with multiplicity, cut between planes, '
@@ -1406,7 +1617,8 @@ CLAUSES = [
                       'history_second_surface': 0.25, 'history_third_surface': 0.11, 'history_faultpos_defaulted_after_set': 0.07,
                       'history_faultpos_defaulted_after_default': 0.025, 'history_natoms_changed': 0.23,
                       'history_setter_faultpos': 0.12, 'history_fault_between': 0.075, 'history_setter_avect': 0.02,
-                      'history_shift_persisted': 0.05, 'history_set_shift': 0.17, 'history_pre_fault': 0.08},
+                      'history_shift_persisted': 0.05, 'history_set_shift': 0.17, 'history_pre_fault': 0.08,
+                      **_unit_guards(0.09, 0.045, 0.24, 0.09)},
            max_share={'refusal_search': 0.25, 'refusal_cut': 0.4, 'c04_filtering_skip': 0.02, 'atom_on_fault_plane_exempt': 0.15},
            desc='StackingFault.fault: atoms not above the plane stay, atoms above move by a1*a1vect + a2*a2vect + outofplane (or the '
                 'given faultshift) modulo the in-plane cell vectors; full lattice vectors restore the slab; fault positions between '
